@@ -56,7 +56,29 @@ for wb in wbs:
     except Exception as e:
         out.append("error:" + type(e).__name__ + ":" + str(e)[:60])
         out.append("error")
-print("@@" + json.dumps(out))
+# the same path read again after the file was replaced: the result is that of the new content (no cache keyed on the path)
+import os, tempfile, shutil
+paths = []
+sheets = [w for w in wbs if isinstance(w, dict) and "sheets" in w][:10]
+root = tempfile.mkdtemp(prefix="c14p-", dir="/var/tmp")
+try:
+    da, db = os.path.join(root, "a"), os.path.join(root, "b")
+    os.mkdir(da); os.mkdir(db)
+    pa, pb = os.path.join(da, "form.xlsx"), os.path.join(db, "form.xlsx")
+    for i in range(len(sheets) - 1):
+        try:
+            open(pa, "wb").write(render.to_xlsx(sheets[i]))
+            convert(xlsform=pa, validate=False, pretty_print=False)
+            open(pa, "wb").write(render.to_xlsx(sheets[i + 1]))
+            r1 = convert(xlsform=pa, validate=False, pretty_print=False)
+            open(pb, "wb").write(render.to_xlsx(sheets[i + 1]))
+            r2 = convert(xlsform=pb, validate=False, pretty_print=False)
+            paths.append([procsim.digest(r1.xform, r1.warnings, r1.itemsets), procsim.digest(r2.xform, r2.warnings, r2.itemsets)])
+        except Exception as e:
+            paths.append(["error:" + type(e).__name__ + ":" + str(e)[:60], "fresh"])
+finally:
+    shutil.rmtree(root, ignore_errors=True)
+print("@@" + json.dumps({"out": out, "paths": paths}))
 '''
 
 
@@ -140,21 +162,22 @@ def run(rep):
     shapes, g = corpus.gen_shapes("ok", 4)
     nforms = 40 if rep.tier == "quick" else 300
     wbs = [formgen.decorate(c["rows"], seed=rep.seed + i, feat=corpus.ALL_FEAT).wb() for i, c in enumerate(corpus.pick(shapes, nforms, rep.seed))]
-    wbs += [forms["f1"], forms["f2"], forms["f3"]] + procsim.extra_forms()
     # the workbooks the repository's own test-suite converts (frozen input corpus), accepted ones
     from harness import suitecorpus
 
     sw = [it["wb"] for it in suitecorpus.load() if it["status_at_freeze"] == "ok"]
     wbs += sw if rep.tier == "thorough" else corpus.pick(sw, 200, rep.seed)
+    wbs += [forms["f1"], forms["f2"], forms["f3"]] + procsim.extra_forms()       # (the named forms stay last)
     seeds = list(range(8)) if rep.tier == "quick" else list(range(48))
     from concurrent.futures import ThreadPoolExecutor
 
     with ThreadPoolExecutor(max_workers=8) as ex:
         sweeps = list(ex.map(_seed_run, [(wbs, s, repo) for s in seeds]))
     # canonical value of form i = its FIRST conversion under seed 0; every (seed, repetition) must reproduce it
-    ref = [sweeps[0][2 * (i // 2)] for i in range(len(sweeps[0]))]
+    ref = [sweeps[0]["out"][2 * (i // 2)] for i in range(len(sweeps[0]["out"]))]
     for s, sw in zip(seeds, sweeps):
-        traces.append([{"ev": "fact", "digest": d, "canon": c, "what": f"seed {s} form {i // 2} conversion {i % 2 + 1}"} for i, (d, c) in enumerate(zip(sw, ref))])
+        traces.append([{"ev": "fact", "digest": d, "canon": c, "what": f"seed {s} form {i // 2} conversion {i % 2 + 1}"} for i, (d, c) in enumerate(zip(sw["out"], ref))])
+        traces.append([{"ev": "fact", "digest": d, "canon": c, "what": f"seed {s} path pair {i}: the same path read again after its file was replaced"} for i, (d, c) in enumerate(sw["paths"])])
     rep.bounds["hash_seeds"] = {"seeds": len(seeds), "forms": len(wbs)}
     tcfg = corpus._cfg("Trace_Process.cfg", TRACE_CFG)
     acc, info = tlc.validate_traces("Trace_Process", tcfg, traces, shards=8, tag="trc14")
@@ -166,7 +189,7 @@ def run(rep):
             continue
         l, clause = info["progress"].get(i, (0, "unexplained_event"))
         ev = t[l - 1] if 0 < l <= len(t) else {}
-        kind = "history" if ev.get("ev") == "step" else ("seed" if "seed" in str(ev.get("what")) else "threads")
+        kind = "history" if ev.get("ev") == "step" else ("path" if "path pair" in str(ev.get("what")) else "seed" if "seed" in str(ev.get("what")) else "threads")
         which = ""
         if kind == "seed":
             idx = int(str(ev["what"]).split("form ")[1].split()[0])
